@@ -264,12 +264,12 @@ def mutated_case():
         # prefer leaf sites over the (always present) top-level struct site
         idx = draw(st.integers(0, len(allsites) - 1))
         path, kind, info = allsites[idx]
-        if kind == "nonsettable":
+        if kind in ("nonsettable", "tablekey"):
             cur = None
         else:
             cur = mutvals.get(base["values"], path) if path else base["values"]
         new, label = mutvals.mutation(draw, kind, info, cur)
-        if kind == "nonsettable":
+        if kind in ("nonsettable", "tablekey"):
             parent = path[:-1]
             pv = mutvals.get(base["values"], parent) if parent else base["values"]
             pv2 = dict(pv)
@@ -296,7 +296,7 @@ def eval_case(case, res: core.ShardResult | None = None) -> list:
     cls = set()
     lab0 = label.split(":")[0]
     cls.add("mut:" + lab0)
-    for grp in ("mux", "bytes", "str", "list", "sfield", "struct"):
+    for grp in ("mux", "bytes", "str", "list", "sfield", "struct", "tablekey", "tstruct"):
         if lab0.startswith(grp):
             cls.add("mut:" + grp)
     if "wrong-type" in label or lab0 in ("linear", "float", "text"):
